@@ -65,6 +65,9 @@ def _mk_nn(ctor):
         c = _build(w, C.NNControlGaussianConditional, g, ctor,
                    dict(num_cond_dim=dx, num_control_dim=w.size("Du"), control_func=control_func))   # REAL
         _clauses(w, c, g)
+        g2 = w.spd("c2", ["R"], "Dy")
+        w.raises("ctor/R>1-refused", (NotImplementedError,), lambda: C.NNControlGaussianConditional(
+            Sigma=g2["S"], num_cond_dim=dx, num_control_dim=w.size("Du"), control_func=control_func))
     return ob
 
 
@@ -84,6 +87,11 @@ def _mk_feature(kind, ctor):
             cls = A.LSEMGaussianConditional
         c = _build(w, cls, g, ctor, kw)                                    # REAL
         _clauses(w, c, g)
+        kw2 = dict(kw)
+        kw2["b"] = None
+        c2 = _build(w, cls, g, ctor, kw2)                                  # REAL: omitted offset
+        w.equal("ctor/default-b=0", c2.b, 0.0 * b)
+        w.raises("ctor/neither-Sigma-nor-Lambda-refused", (RuntimeError,), lambda: cls(**kw))
     return ob
 
 
@@ -100,7 +108,7 @@ def _register():
                 sorts = (["R"] if R != 1 else []) + ["Dy"] + (["Dx"] if kind in ("full", "diag") else [])
                 REG.ob(f"cond-ctor/{cls}/{ctor}/R={R}", sorts=sorts, funcs=[f"conditional.{cls}.__post_init__"])(_mk_linear(kind, ctor, R))
     # NNControlGaussianConditional documents Sigma as its only covariance argument (Lambda-only is outside its contract)
-    REG.ob("cond-ctor/NNControlGaussianConditional/Sigma", sorts=["Dy", "Dx", "Du"],
+    REG.ob("cond-ctor/NNControlGaussianConditional/Sigma", sorts=["R", "Dy", "Dx", "Du"],
            funcs=["conditional.NNControlGaussianConditional.__post_init__"])(_mk_nn("Sigma"))
     for ctor in CTORS:
         for kind, cls in (("rbf", "LRBFGaussianConditional"), ("lsem", "LSEMGaussianConditional")):
